@@ -10,6 +10,7 @@ Init == [i |-> 0, viol |-> {},
          owners |-> [c \in CIds |-> {}],      \* peers this connection belongs to (dialled peer / identity of a successful exchange)
          cand   |-> [c \in CIds |-> ""],      \* Origin-Host of the first CER on an inbound connection
          dir    |-> [c \in CIds |-> ""],
+         multi  |-> {},                       \* peers that have had several live connections at once
          wasIn  |-> {},                       \* connections that were in the node's connection table (or were dialled)
          had    |-> {}]                       \* peers that have had a connection
 
@@ -38,10 +39,14 @@ Check(M, sn) ==
       v6 == {"disconnect_reason_or_time_unset" : p \in {q \in M.had : sn.peers[q].conn = 0 /\ (sn.peers[q].reason = 0 \/ sn.peers[q].ldisc < 0)}}
       rdy(a) == \E j \in 1..Len(MCfg.apps[a].peers) : LET p == MCfg.apps[a].peers[j] IN sn.peers[p].conn # 0 /\ sn.peers[p].st \in READY
       none(a) == \A j \in 1..Len(MCfg.apps[a].peers) : sn.peers[MCfg.apps[a].peers[j]].conn = 0
-      v7 == {"app_not_ready_with_ready_peer" : a \in {x \in MApps : rdy(x) /\ sn.apps[x] = 0}}
+      multi == M.multi \cup {p \in MPeers : Cardinality(live(p)) > 1}
+      several(a) == \E j \in 1..Len(MCfg.apps[a].peers) : MCfg.apps[a].peers[j] \in multi
+      v7 == {IF several(a) THEN "app_not_ready_with_ready_peer:peer_with_several_connections" ELSE "app_not_ready_with_ready_peer"
+               : a \in {x \in MApps : rdy(x) /\ sn.apps[x] = 0}}
       v8 == {"app_ready_without_connection" : a \in {x \in MApps : none(x) /\ sn.apps[x] = 1}}
       sigs == v1 \cup v1o \cup v2 \cup v3 \cup v4 \cup v5 \cup v6 \cup v7 \cup v8
   IN [M EXCEPT !.viol = @ \cup {[sig |-> s, at |-> M.i] : s \in sigs},
+               !.multi = multi,
                !.wasIn = @ \cup {c \in CIds : InConns(sn, c)},
                !.had = @ \cup {p \in MPeers : sn.peers[p].conn # 0}]
 
